@@ -79,4 +79,10 @@ ScalarsB == {-1, 2, 3}
 StartSet == {<<f, pq>> : f \in FamIds, pq \in PatPairs}
 StartSeq == SetToSeq(StartSet)          \* TLC: a fixed enumeration order
 MCInitStores == [k \in 1..Len(StartSeq) |-> <<ObjOf(StartSeq[k][1], StartSeq[k][2][1], 1), ObjOf(StartSeq[k][1], StartSeq[k][2][2], 2)>>]
+
+(* persistence only (quick tier): every family is saved and loaded back *)
+NextIO == \/ \E i \in Idx : DoSave(i)
+          \/ \E f \in 1..Len(files) : DoLoad(f)
+          \/ DoSaveVoid
+SpecIO == Init /\ [][NextIO]_vars
 =============================================================================
